@@ -401,7 +401,7 @@ impl Module for M {
          random triangles with coordinates within +-60 at scales 4/8/16/30/60 with forced flat, vertical and colinear cases \
          (quick 2000 points / 600 outlines, thorough 50000 / 10000); every tri.points op also evaluates all 6 vertex orders. \
          tri.pair: all quadrilaterals a,b,c,d on a 4x4 grid with a < c (index order), split along a-c, plus random ones \
-         (quick 600, thorough 20000). C05: the same tri.points ops (5x5 grids; thorough 6x6 + 7x7 unit) and random ones. \
+         (quick 600, thorough 20000). C05: the same tri.points ops (the same grids and the same number of random ones). \
          Non-trivial: non-zero area (points, outline); b and d strictly on opposite sides of a-c (pair). distinct = distinct op text."
     }
 
